@@ -69,6 +69,46 @@ class _PropertyFailed(Exception):
     pass
 
 
+class RunawayError(Exception):
+    """Raised from inside a harness-supplied callback / random source when the code under test makes more
+    calls than any terminating run on the given input can need (deterministic non-termination detector)."""
+
+
+class CallBudget(object):
+    def __init__(self, limit, what='callback'):
+        self.limit, self.n, self.what = limit, 0, what
+
+    def tick(self):
+        self.n += 1
+        if self.n > self.limit:
+            raise RunawayError('%s invoked more than %d times' % (self.what, self.limit))
+
+
+class CaseTimeout(BaseException):
+    pass
+
+
+class watchdog(object):
+    """Wall-clock guard around one case: a hit is *inconclusive* (harness error, exit 2), never a violation."""
+    def __init__(self, seconds):
+        self.seconds = seconds
+
+    def __enter__(self):
+        import signal
+
+        def handler(signum, frame):
+            raise CaseTimeout()
+        self.old = signal.signal(signal.SIGALRM, handler)
+        signal.setitimer(signal.ITIMER_REAL, self.seconds)
+        return self
+
+    def __exit__(self, *a):
+        import signal
+        signal.setitimer(signal.ITIMER_REAL, 0)
+        signal.signal(signal.SIGALRM, self.old)
+        return False
+
+
 def load_known():
     known, fixed = [], []
     path = os.path.join(VERIF, 'KNOWN_FINDINGS.txt')
@@ -239,7 +279,7 @@ class Ctx(object):
 # ---------------------------------------------------------------------------
 
 def run_hypothesis(ctx, sub, strategy, prop, max_examples, rounds=3, shrink_budget_s=None,
-                   min_class_fraction=None):
+                   min_class_fraction=None, case_timeout=60):
     """Drive `prop(case) -> Result` over `strategy`.
 
     Failures with a known signature are counted and excluded (the search continues).  A new failure
@@ -261,7 +301,12 @@ def run_hypothesis(ctx, sub, strategy, prop, max_examples, rounds=3, shrink_budg
             if state['stop']:
                 return
             try:
-                res = prop(case)
+                with watchdog(case_timeout):
+                    res = prop(case)
+            except CaseTimeout:
+                ctx.harness_error(sub, 'case did not finish within %ds (inconclusive): %s' % (case_timeout, json.dumps(jsonable(case))[:600]))
+                state['stop'] = True
+                return
             except HarnessError as e:
                 ctx.harness_error(sub, '%s on case %s' % (e, json.dumps(jsonable(case))[:400]))
                 state['stop'] = True
@@ -317,12 +362,16 @@ def run_hypothesis(ctx, sub, strategy, prop, max_examples, rounds=3, shrink_budg
                 ctx.harness_error(sub, 'generator class %r realised in %d/%d cases (< %.0f%%)' % (cls, got, n, frac * 100))
 
 
-def run_cases(ctx, sub, cases, prop, stop_after=3):
+def run_cases(ctx, sub, cases, prop, stop_after=3, case_timeout=120):
     """Drive prop over an explicit (ordered, smallest-first) iterable of cases."""
     found = 0
     for case in cases:
         try:
-            res = prop(case)
+            with watchdog(case_timeout):
+                res = prop(case)
+        except CaseTimeout:
+            ctx.harness_error(sub, 'case did not finish within %ds (inconclusive): %s' % (case_timeout, json.dumps(jsonable(case))[:600]))
+            return
         except HarnessError as e:
             ctx.harness_error(sub, '%s on case %s' % (e, json.dumps(jsonable(case))[:400]))
             return
